@@ -172,6 +172,10 @@ func (r *Run) simple(method, tgt string, op *Op) *Resp {
 
 // quiet issues an observation request without the op's faults.
 func (r *Run) quiet(method, tgt string) *Resp {
+	me := r.me()
+	saved := me.opFaults
+	me.opFaults = nil // observations are never hit by the op's disk faults
+	defer func() { me.opFaults = saved }()
 	return r.send(&simnet.Request{Method: method, Target: tgt}, nil, "whole")
 }
 
@@ -209,6 +213,52 @@ func (r *Run) bucket(name string) *model.Bucket {
 		b = r.M.CreateBucket(name)
 	}
 	return b
+}
+
+// faultedOut implements the narrow relaxation of DESIGN §5: an operation that
+// failed after an injected disk fault hit it makes only its own keys
+// indeterminate; nothing else about its answer is judged.
+func (r *Run) faultedOut(resp *Resp, bucket string, keys ...string) bool {
+	if !r.me().faulted {
+		return false
+	}
+	r.faultSeen = true
+	if bucket != "" && r.Plan.Config.Backend != "singlefs" {
+		// whether the bucket exists (auto-creation, create/delete bucket) is
+		// whatever the store now says
+		exists := r.quiet("HEAD", target(bucket, "", nil)).Status == 200
+		if exists && r.M.Buckets[bucket] == nil {
+			r.M.CreateBucket(bucket)
+		} else if !exists && r.M.Buckets[bucket] != nil && r.M.Buckets[bucket].Empty() {
+			delete(r.M.Buckets, bucket)
+		}
+	}
+	if b := r.M.Buckets[bucket]; b != nil {
+		b.Dirty = true
+		for _, kn := range keys {
+			if kn == "" {
+				continue
+			}
+			k := b.Keys[kn]
+			if k == nil {
+				k = &model.Key{}
+				b.Keys[kn] = k
+			}
+			k.Indet = true
+		}
+	}
+	r.logf("  -> hit by an injected disk fault: %v indeterminate", keys)
+	return true
+}
+
+// serverFailure charges a 5xx answer to a correct request: after an injected
+// disk fault has hit some other operation it is C09's "still answers correct
+// requests" clause, otherwise the given clause.
+func (r *Run) serverFailure(clause, sig, exp, obs string) {
+	if r.faultSeen {
+		r.fail("canary", "after an injected disk fault on another request: "+sig, exp, obs)
+	}
+	r.fail(clause, sig, exp, obs)
 }
 
 func (r *Run) expectNoBucket(resp *Resp, what string) {
@@ -288,7 +338,7 @@ func (r *Run) expectNoKey(resp *Resp, head bool, what string) {
 func (r *Run) opMkBucket(op *Op) {
 	resp := r.simple("PUT", target(op.B, "", nil), op)
 	r.noPanic(resp, "create bucket")
-	if r.Plan.Config.Backend == "singlefs" {
+	if r.faultedOut(resp, op.B) || r.Plan.Config.Backend == "singlefs" {
 		return // cannot create buckets: not judged
 	}
 	if r.M.Buckets[op.B] != nil {
@@ -309,6 +359,9 @@ func (r *Run) opMkBucket(op *Op) {
 func (r *Run) opHeadBucket(op *Op) {
 	resp := r.simple("HEAD", target(op.B, "", nil), op)
 	r.noPanic(resp, "head bucket")
+	if r.faultedOut(resp, "", "") {
+		return
+	}
 	if r.bucket(op.B) == nil {
 		r.expectNoBucket(resp, "HEAD bucket")
 		return
@@ -322,12 +375,18 @@ func (r *Run) opHeadBucket(op *Op) {
 func (r *Run) opRmBucket(op *Op) {
 	resp := r.simple("DELETE", target(op.B, "", nil), op)
 	r.noPanic(resp, "delete bucket")
-	if r.Plan.Config.Backend == "singlefs" {
+	if r.faultedOut(resp, op.B) || r.Plan.Config.Backend == "singlefs" {
 		return
 	}
 	b := r.bucket(op.B)
 	if b == nil {
 		r.expectNoBucket(resp, "DELETE bucket")
+		return
+	}
+	if b.Dirty && (resp.Status == 204 || resp.Status == 409) {
+		if resp.Status == 204 {
+			delete(r.M.Buckets, op.B)
+		}
 		return
 	}
 	if !b.Empty() {
@@ -407,24 +466,13 @@ func (r *Run) opPut(op *Op) {
 		resp = r.send(r.putRequest(op, target(op.B, op.Key, nil), ent.Body), op.Faults, r.frag(op))
 	}
 	r.noPanic(resp, "put object")
+	if r.faultedOut(resp, op.B, op.Key) {
+		return
+	}
 	b := r.bucket(op.B)
 	if b == nil {
 		r.expectNoBucket(resp, "PUT object")
 		return
-	}
-	me := r.me()
-	if me.faulted {
-		// an injected disk fault hit this upload: only this key becomes indeterminate
-		if !resp.OK() {
-			k := b.Keys[op.Key]
-			if k == nil {
-				k = &model.Key{}
-				b.Keys[op.Key] = k
-			}
-			k.Indet = true
-			r.logf("  -> %s after injected fault: key indeterminate", resp.String())
-			return
-		}
 	}
 	if !resp.OK() {
 		cl := "read.content"
@@ -500,6 +548,9 @@ func (r *Run) opRead(op *Op) {
 	resp := r.simple(method, target(op.B, op.Key, q), op)
 	r.noPanic(resp, method+" object")
 	r.logf("  -> %s len=%d", resp.String(), len(resp.Body))
+	if r.faultedOut(resp, "", "") {
+		return
+	}
 	if resp.WriteFailed {
 		return // the client hung up: nothing to judge about the content
 	}
@@ -565,19 +616,12 @@ func (r *Run) opDelete(op *Op) {
 	resp := r.simple("DELETE", target(op.B, op.Key, q), op)
 	r.noPanic(resp, "delete object")
 	r.logf("  -> %s", resp.String())
+	if r.faultedOut(resp, op.B, op.Key) {
+		return
+	}
 	b := r.bucket(op.B)
 	if b == nil {
 		r.expectNoBucket(resp, "DELETE object")
-		return
-	}
-	me := r.me()
-	if me.faulted && !resp.OK() {
-		k := b.Keys[op.Key]
-		if k == nil {
-			k = &model.Key{}
-			b.Keys[op.Key] = k
-		}
-		k.Indet = true
 		return
 	}
 	if id != "" {
@@ -638,20 +682,17 @@ func (r *Run) opDeleteMulti(op *Op) {
 	resp := r.send(req, op.Faults, r.frag(op))
 	r.noPanic(resp, "multi-delete")
 	r.logf("  -> %s", resp.String())
+	if r.me().faulted {
+		var kn []string
+		for _, it := range items {
+			kn = append(kn, it.key)
+		}
+		r.faultedOut(resp, op.B, kn...)
+		return
+	}
 	b := r.bucket(op.B)
 	if b == nil {
 		r.expectNoBucket(resp, "multi-delete")
-		return
-	}
-	if r.me().faulted {
-		for _, it := range items {
-			k := b.Keys[it.key]
-			if k == nil {
-				k = &model.Key{}
-				b.Keys[it.key] = k
-			}
-			k.Indet = true
-		}
 		return
 	}
 	var x xDeleteResult
@@ -688,6 +729,9 @@ func (r *Run) opCopy(op *Op) {
 	resp := r.send(req, op.Faults, r.frag(op))
 	r.noPanic(resp, "copy object")
 	r.logf("  -> %s", resp.String())
+	if r.faultedOut(resp, op.B, op.Key) {
+		return
+	}
 	db := r.bucket(op.B)
 	if db == nil {
 		r.expectNoBucket(resp, "copy into")
@@ -980,7 +1024,7 @@ func (r *Run) opList(op *Op) {
 		return
 	}
 	if x == nil {
-		r.fail("list.exact", "ListObjects fails "+r.bctx(), "200", resp.String()+" "+resp.Msg)
+		r.serverFailure("list.exact", "ListObjects fails "+r.bctx(), "200", resp.String()+" "+resp.Msg)
 	}
 	if paged {
 		r.checkPage(op, x, b, op.Marker, op.HasMk, true)
@@ -1228,7 +1272,7 @@ func (r *Run) fullCheck(clause string) {
 		}
 		x, lresp := r.doList(&Op{B: bn}, nil)
 		if x == nil {
-			r.fail(clause, "listing a bucket fails (full-store check) "+r.bctx(), "200", lresp.String())
+			r.serverFailure(clause, "listing a bucket fails (full-store check) "+r.bctx(), "200", lresp.String())
 		}
 		indet := r.indetKeys(b)
 		got := dropIndet(fromX(x), indet, "", "")
